@@ -15,6 +15,7 @@
 from __future__ import annotations
 
 import collections
+import copy
 from collections.abc import Iterable, Sequence
 import dataclasses
 import enum
@@ -646,10 +647,16 @@ class ConfusionMatrixAggFn(base.AggregateFn):
         and self.vocab is None
     ):
       raise ValueError(f'Global vocab is needed for "{self._average}" average.')
-    iter_acc = iter(states)
-    result = next(iter_acc)
-    for accumulator in iter_acc:
-      result += accumulator
+    result = None
+    for i, accumulator in enumerate(states):
+      # The state of a shard without any input is None (`create_state`).
+      if accumulator is None:
+        continue
+      if result is None:
+        # Only the first state may be modified, copy any other one.
+        result = accumulator if i == 0 else copy.deepcopy(accumulator)
+      else:
+        result += accumulator
     return result
 
   def get_result(self, state: ConfusionMatrixAggState) -> Any:
